@@ -792,6 +792,7 @@ theorem Loc.calcAdd {r : Nat} (sys : Sys) (n : Nat) {x : Id} (hx : x.reg = r) (v
   refine Loc.bind (Loc.varDecl sys v) fun decl _ => ?_
   refine Loc.ite (fun _ => Loc.fail _) fun _ => ?_
   refine Loc.ite (fun _ => Loc.fail _) fun _ => ?_
+  refine Loc.ite (fun _ => Loc.fail _) fun _ => ?_
   refine Loc.bind (Loc.ofPeriod _ fun _ _ => trivial) fun subs _ => ?_
   exact Loc.sumCalc sys n hx v subs none
 
